@@ -726,20 +726,23 @@ Proof.
       destruct (assoc K V eqk hash d' emptyBitmap (shift_of d') (hash k) k v) as [|n1 a1]; [destruct A1|].
       destruct A1 as (I1 & P1 & _). cbn in P1.
       destruct (unpack_slots d' s p _ IH Hs Hd' Hd8 H30 Hp HS) as (U1 & U2 & U3 & U4 & U5).
-      set (cs0 := map (convo (assoc K V eqk hash d') s) (bslots bm es)) in *.
       unfold unpack. change (N.to_nat nodeCap) with 32.
       rewrite (unpackLoop_map (assoc K V eqk hash d') s bm 32 0 es Hwf).
       2:{ intros e He. apply U5. apply in_somes. unfold bslots. rewrite somes_expandf by exact Hwf. exact He. }
-      fold (bslots bm es). fold cs0. fold c. cbn [AssocPost]. rewrite (flat_bitmap bm es Hwf).
-      assert (Hc0n : nth_error cs0 (N.to_nat c) = Some None) by (apply U4; exact Hget).
+      fold c. unfold bslots in U1, U2, U3, U4, U5.
+      remember (map (convo (assoc K V eqk hash d') s) (expandf (N.testbit bm) 32 0 es)) as cs0 eqn:Ecs0 in *.
+      clear Ecs0.
+      cbn [AssocPost]. rewrite (flat_bitmap bm es Hwf).
+      pose proof Hget as Hget'. unfold bslots in Hget'.
+      pose proof (U4 (N.to_nat c) Hget') as Hc0n.
       assert (Hgeta : nth_error (aslots cs0) (N.to_nat c) = Some None)
         by (rewrite aslots_nth, Hc0n; reflexivity).
       pose proof (slot_other d' s p _ k _ Hs Hp U1 Hk eq_refl) as Hoth'. fold c in Hoth'.
       split; [|split].
       * cbn [Inv]. fold s. split; [exact L2|]. split; [exact Hp|]. split; [exact Hs25|].
         pose proof (somes_replace_length cs0 (N.to_nat c) None (Some n1) Hc0n) as SL. cbn in SL.
-        assert (length (somes (bslots bm es)) = length es)
-          by (unfold bslots; rewrite somes_expandf by exact Hwf; reflexivity).
+        assert (length (somes (expandf (N.testbit bm) 32 0 es)) = length es)
+          by (rewrite somes_expandf by exact Hwf; reflexivity).
         split; [lia|]. split; [lia|].
         rewrite aslots_replace. cbn [option_map]. apply SlotsOk_replace; [exact U1|exact Hc0|].
         intros e0 E0. inversion E0; subst. cbn [EntryOk]. split; [exact I1|eapply perm_cons_nonnil; exact P1].
